@@ -30,10 +30,31 @@ func returnLeaves(fn *ssa.Function, idx int) []retLeaf {
 			}
 			return
 		}
+		// defer-spilled results: `*res = v; rundefers; t = *res; return t` — take the last store in the same block
+		if u, ok := v.(*ssa.UnOp); ok && u.Op == token.MUL && d < 20 {
+			if a, ok := u.X.(*ssa.Alloc); ok && u.Block() == r.Block() {
+				var last *ssa.Store
+				for _, in := range u.Block().Instrs {
+					if in == ssa.Instruction(u) {
+						break
+					}
+					if st, ok := in.(*ssa.Store); ok && st.Addr == ssa.Value(a) {
+						last = st
+					}
+				}
+				if last != nil {
+					rec(last.Val, b, r, d+1)
+					return
+				}
+			}
+		}
 		out = append(out, retLeaf{v, b, r})
 	}
 	eachInstr(fn, func(in ssa.Instruction) {
 		if r, ok := in.(*ssa.Return); ok && idx < len(r.Results) {
+			if fn.Recover != nil && r.Block() == fn.Recover {
+				return // the panic-recovery exit returns the (zero or already assigned) named results
+			}
 			rec(r.Results[idx], r.Block(), r, 0)
 		}
 	})
